@@ -231,7 +231,7 @@ impl Report {
             }
             exit = 2;
         }
-        let wall = self.t0.elapsed().as_secs_f64();
+        let wall = self.t0.elapsed().as_secs_f64() + self.extra.get("wall_s_outside_this_process").and_then(|v| v.as_f64()).unwrap_or(0.0);
         let mut cov = Map::new();
         for k in ["programs", "disagreements_checked", "obligations", "discharged", "inconclusive"] {
             cov.insert(k.to_string(), json!(0));
